@@ -257,7 +257,7 @@ def gen_tsamples(rng, dt, tmax_hint):
 
 
 def gen_script(rng, option, space_kind=None, dyadic=None, policy=None, static=False, degenerate=False, sub_molecule=False,
-               units=True, max_steps=120, mode=None):
+               units=True, max_steps=120, mode=None, zero_tmax=None):
     """(script description for life_child, info) — a VALID script"""
     stochastic = option != "euler"
     dyadic = rng.random() < 0.6 if dyadic is None else dyadic
@@ -269,7 +269,8 @@ def gen_script(rng, option, space_kind=None, dyadic=None, policy=None, static=Fa
     nsteps = rng.randint(1, max_steps)
     tmax = dt * nsteps if rng.random() < 0.5 else dt * (nsteps + rng.choice([0.25, 0.5, 0.9]))
     policy = policy or rng.choice(POLICIES)
-    zero_tmax = rng.random() < 0.06
+    r_zero = rng.random() < 0.06
+    zero_tmax = r_zero if zero_tmax is None else zero_tmax
     ts, style = gen_tsamples(rng, dt, tmax)
     if zero_tmax:
         tmax = 0.0
